@@ -139,10 +139,10 @@ impl<F: FutFl, const KIND: u8> Prog for Park<F, KIND> {
     }
 }
 
-pub fn parked<F: FutFl, const KIND: u8, const OUTER: usize>(cap: u64, n: u8, budget: u8) {
+pub fn parked<F: FutFl, const KIND: u8, const OUTER: usize>(cap: u64, n: u8, budget: u8, kinds: u16, per_site: u8) {
     ledger::reset();
     payload::reset();
-    sched::configure(1, budget, sched::MEM_KINDS, 2);
+    sched::configure(1, budget, kinds, per_site);
     let mut w = World::<F>::new(cap);
     set_world::<F>(&mut *w);
     if KIND == 6 {
@@ -486,9 +486,17 @@ pub type BcF10 = BcastFut<u8, 1, 0>;
 pub type MpF11 = MpmcFut<u8, 1, 1>;
 use crate::scen_life::Idle;
 
+/// every site except those in front of plain loads: the parking protocol's own steps (lock, list
+/// push, notify, stores, read-modify-writes); an operation injected between two loads of the
+/// try_send / try_recv inside the parking call is what the traffic harnesses (C01..C06) explore
+pub const PARK_SYNC_KINDS: u16 = sched::MEM_KINDS & !((1 << 0) | (1 << 9));
+
 macro_rules! park {
     ($name:ident, $hk:ident, $f:ty, $kind:literal, $outer:literal, $cap:literal, $n:literal, $b:literal) => {
-        crate::mq_harness!($name, $hk, Runner<Park<$f, $kind>, $outer>, parked::<$f, $kind, $outer>($cap, $n, $b));
+        crate::mq_harness!($name, $hk, Runner<Park<$f, $kind>, $outer>, parked::<$f, $kind, $outer>($cap, $n, $b, sched::MEM_KINDS, 1));
+    };
+    ($name:ident, $hk:ident, $f:ty, $kind:literal, $outer:literal, $cap:literal, $n:literal, $b:literal, $kinds:expr, $ps:literal) => {
+        crate::mq_harness!($name, $hk, Runner<Park<$f, $kind>, $outer>, parked::<$f, $kind, $outer>($cap, $n, $b, $kinds, $ps));
     };
 }
 
@@ -499,10 +507,21 @@ park!(c14_bc_send_vs_poll, hk_c14_bc_send_vs_poll, BcF00, 2, 0, 2, 2, 1);
 park!(c14_mp_send_vs_tryrecv, hk_c14_mp_send_vs_tryrecv, MpF00, 3, 0, 1, 1, 1);
 park!(c14_bc_poll_vs_droptx, hk_c14_bc_poll_vs_droptx, BcF00, 4, 0, 2, 2, 1);
 park!(c14_mp_send_vs_droprx, hk_c14_mp_send_vs_droprx, MpF00, 5, 0, 1, 1, 1);
-park!(c14_bc_two_polls, hk_c14_bc_two_polls, BcF00, 6, 0, 2, 2, 3);
+park!(c14_bc_two_polls, hk_c14_bc_two_polls, BcF00, 6, 0, 2, 2, 3, sched::MEM_KINDS, 2);
 park!(c14_bc_send_vs_upoll, hk_c14_bc_send_vs_upoll, BcF00, 7, 0, 1, 1, 1);
 park!(c14_bc_drop_stream_repoll, hk_c14_bc_drop_stream_repoll, BcF00, 8, 0, 1, 1, 1);
 park!(c15_bc_fresh_poll, hk_c15_bc_fresh_poll, BcF00, 9, 0, 2, 2, 0);
+park!(c14s_bc_poll_vs_send, hk_c14s_bc_poll_vs_send, BcF00, 1, 0, 2, 2, 1, PARK_SYNC_KINDS, 1);
+park!(c14s_mp_poll_vs_send, hk_c14s_mp_poll_vs_send, MpF00, 1, 0, 1, 1, 1, PARK_SYNC_KINDS, 1);
+park!(c14s_mp_send_vs_poll, hk_c14s_mp_send_vs_poll, MpF00, 2, 0, 1, 1, 1, PARK_SYNC_KINDS, 1);
+park!(c14s_bc_send_vs_poll, hk_c14s_bc_send_vs_poll, BcF00, 2, 0, 2, 2, 1, PARK_SYNC_KINDS, 1);
+park!(c14s_bc_poll_vs_droptx, hk_c14s_bc_poll_vs_droptx, BcF00, 4, 0, 2, 2, 1, PARK_SYNC_KINDS, 1);
+park!(c14s_mp_send_vs_droprx, hk_c14s_mp_send_vs_droprx, MpF00, 5, 0, 1, 1, 1, PARK_SYNC_KINDS, 1);
+// the notifying side as the preempted operation: the parking task's whole call runs inside it
+park!(c14s_mp_send_o1_vs_poll, hk_c14s_mp_send_o1_vs_poll, MpF00, 1, 1, 1, 1, 1, PARK_SYNC_KINDS, 1);
+park!(c14s_mp_poll_o1_vs_send, hk_c14s_mp_poll_o1_vs_send, MpF00, 2, 1, 1, 1, 1, PARK_SYNC_KINDS, 1);
+park!(c14s_bc_droptx_o1_vs_poll, hk_c14s_bc_droptx_o1_vs_poll, BcF00, 4, 1, 2, 2, 1, PARK_SYNC_KINDS, 1);
+park!(c14s_mp_droprx_o1_vs_send, hk_c14s_mp_droprx_o1_vs_send, MpF00, 5, 1, 1, 1, 1, PARK_SYNC_KINDS, 1);
 park!(c14_bc10_poll_vs_send, hk_c14_bc10_poll_vs_send, BcF10, 1, 0, 2, 2, 1);
 park!(c14_mp11_send_vs_poll, hk_c14_mp11_send_vs_poll, MpF11, 2, 0, 1, 1, 1);
 
